@@ -418,10 +418,6 @@ def _nb(s):
     return "".join(ch for ch in s if not ch.isspace())
 
 
-def _border_present(chars):
-    return any(c.strip() != "" for c in chars)
-
-
 def oracle(case, obs):
     """rendering succeeds; all lines have one visible width <= terminal width (modulo the trailing
     blanks draw_row strips when the right border is blank); every column has the same width in every
@@ -489,14 +485,12 @@ def oracle(case, obs):
             cells.append(body[len(pre):len(body) - len(post)])
         return cells
 
-    def is_border(l, line_ch, lc, cc, rc):
-        s = l.ljust(W)
-        if s[:indent].strip() != "":
-            return False
+    def border_text(line_ch, lc, cc, rc):
+        """the border line the grid demands; '' when it is entirely blank (such a line is not drawn)"""
         exp = " " * indent + lc
         for j in range(n):
             exp += line_ch * (cl[j] + excess) + (cc if j < n - 1 else rc)
-        return exp.rstrip() == l
+        return exp.rstrip()
 
     k = 0
     rows = _all_rows(case)
@@ -504,8 +498,8 @@ def oracle(case, obs):
     top = (b.line_ht_char, b.corner_tl_char, b.crossing_t_char, b.corner_tr_char)
     mid = (b.line_hc_char, b.crossing_l_char, b.crossing_c_char, b.crossing_r_char)
     bot = (b.line_hb_char, b.corner_bl_char, b.crossing_b_char, b.corner_br_char)
-    if _border_present(top):
-        if k >= len(lines) or not is_border(lines[k], *top):
+    if border_text(*top):
+        if k >= len(lines) or lines[k] != border_text(*top):
             return "top border missing or not aligned with the columns"
         k += 1
     for ri, row in enumerate(rows):
@@ -527,12 +521,12 @@ def oracle(case, obs):
                     return "row %d column %d: rendered text %r is not the cell's text" % (ri, j, acc[j][-40:])
             if acc == want:
                 break
-        if has_header and ri == 0 and _border_present(mid):
-            if k >= len(lines) or not is_border(lines[k], *mid):
+        if has_header and ri == 0 and border_text(*mid):
+            if k >= len(lines) or lines[k] != border_text(*mid):
                 return "middle border missing or not aligned with the columns"
             k += 1
-    if _border_present(bot):
-        if k >= len(lines) or not is_border(lines[k], *bot):
+    if border_text(*bot):
+        if k >= len(lines) or lines[k] != border_text(*bot):
             return "bottom border missing or not aligned with the columns"
         k += 1
     if k != len(lines):
@@ -561,18 +555,13 @@ def bucket(case, obs):
 
 # --------------------------------------------------------------------------- known finding D28
 def known_class(case, obs, verdict):
-    """D28: a cell that contains a style tag and is longer than its column (textwrap cuts inside the tag)"""
-    cl = obs.get("column_lengths") if isinstance(obs, dict) else None
-    rows = _all_rows(case)
-    for r in rows:
-        for j, c in enumerate(r):
-            if TAG_RE.search(c):
-                if cl is None:
-                    # rendering failed: the class is decided on the input alone (a styled cell that cannot fit)
-                    if len(visible(c).rstrip()) * case["n"] > available(case):
-                        return "D28"
-                elif len(visible(c).rstrip()) > cl[j] or any(c == w[0] for w in obs.get("wraps", [])):
-                    return "D28"
+    """D28: a cell that contains a style tag and is longer than its column, i.e. a text with a style tag
+    was handed to textwrap.wrap (which is not format-aware and cuts inside the tag)"""
+    if not isinstance(obs, dict):
+        return None
+    for call in obs.get("wraps") or []:
+        if TAG_RE.search(call[0]):
+            return "D28"
     return None
 
 
